@@ -389,12 +389,21 @@ def checksig(st, sig, key, script, codesep_start):
 def ext(st, op, minimal):
     raise ScriptFail('EXT_UNMODELLED')
 
-def run(script, stack, flags, sv, allow_disabled=False, checker=None, execdata=None, successor=None):
+class _Count(list):
+    """trace stand-in that only counts (for very long boundary scripts)"""
+    def __init__(self): list.__init__(self); self.n = 0
+    def append(self, x): self.n += 1
+    def __len__(self): return self.n
+
+
+def run(script, stack, flags, sv, allow_disabled=False, checker=None, execdata=None, successor=None, keep_trace=True):
     """returns (trace, outcome) ; outcome = ('ok', final) | ('err', CODE, index) | ('exc', msg, index) | ('setup', CODE)"""
-    if len(script) > MAX_SCRIPT: return [], ('setup', 'SCRIPT_SIZE')
+    if sv in (BASE, WITNESS_V0) and len(script) > MAX_SCRIPT: return [], ('setup', 'SCRIPT_SIZE')   # BIP342: no size limit in tapscript
     st = State(stack, flags, sv, checker, allow_disabled)
+    run.last_state = st
     if execdata: st.execdata.update(execdata)
-    trace = []
+    trace = [] if keep_trace else _Count()
+    snap = st.snap if keep_trace else (lambda: None)
     cur = bytes(script); cs = 0
     p2sh = bool(flags & F['P2SH']) and len(cur) == 23 and cur[0] == 0xa9 and cur[1] == 20 and cur[22] == 0x87
     p2shstack = list(st.stack) if p2sh else None
@@ -405,19 +414,20 @@ def run(script, stack, flags, sv, allow_disabled=False, checker=None, execdata=N
                 cs = step(st, cur, e, cs); st.opcode_pos += 1
             except ScriptFail as f: return trace, ('err', f.code, idx)
             except NumErr as f: return trace, ('exc', str(f), idx)
-            trace.append(st.snap()); idx += 1
+            trace.append(snap()); idx += 1
         if p2sh:
             if not st.stack or not cast_bool(st.stack[-1]): return trace, ('err', 'EVAL_FALSE', idx)
             st.stack = list(p2shstack); cur = st.stack.pop(); cs = 0; st.nops = 0; p2sh = False
-            trace.append(st.snap()); idx += 1
+            trace.append(snap()); idx += 1
             continue
         if successor:
             cur = bytes(successor); successor = None; cs = 0; st.nops = 0
+            if sv in (BASE, WITNESS_V0) and len(cur) > MAX_SCRIPT: return trace, ('err', 'SCRIPT_SIZE', idx)   # every script of a spend is size-limited
             p2sh = bool(flags & F['P2SH']) and len(cur) == 23 and cur[0] == 0xa9 and cur[1] == 20 and cur[22] == 0x87
             p2shstack = list(st.stack) if p2sh else None
-            trace.append(st.snap()); idx += 1
+            trace.append(snap()); idx += 1
             continue
         break
     if st.vf: return trace, ('err', 'UNBALANCED_CONDITIONAL', idx)
-    trace.append(st.snap())
+    trace.append(snap())
     return trace, ('ok', list(st.stack))
